@@ -147,7 +147,10 @@ class EBB3:
 
         ebb_version_string = ebb_version_string.strip()  # Stripped copy, for number comparisons
         self.version = ebb_version_string
-        self.version_parsed = parse(ebb_version_string)
+        try:
+            self.version_parsed = parse(ebb_version_string)
+        except InvalidVersion:
+            self.version_parsed = None # Not a version number; treat as unknown.
 
 
     def query_nickname(self):
@@ -239,7 +242,7 @@ class EBB3:
                     if "EBB" in str_version:
                         verified = True
 
-        except serial.SerialException:
+        except (serial.SerialException, UnicodeDecodeError):
             self.record_error(f"Error testing USB connection (port name: {self.port_name})")
             self.disconnect() # Try to close the port, in case it is open.
 
@@ -279,6 +282,8 @@ class EBB3:
             parsed_version_string = parse(version_string)
         except InvalidVersion:
             return None
+        if self.version_parsed is None:
+            return False # Firmware version unknown; cannot confirm the minimum.
         if self.version_parsed >= parsed_version_string:
             return True
         return False
